@@ -93,6 +93,21 @@ func propC06(c *Check) {
 			}
 		})
 		c.Require(okp && len(findCalls(f, "(*common.Encoder).EncodeTransaction")) == 1, "provenance", shortName(f)+"|payload source", "the payload transaction is the receiver's own Transaction, encoded by EncodeTransaction", "payload source changed")
+		// every returned payload is that encoding: no path returns the full (signature-carrying) encoding
+		nret, badret := 0, ""
+		for _, r := range allReturns(f) {
+			nret++
+			ok := false
+			if cl, isCall := retValue(r, 0).(*ssa.Call); isCall && Call("(*common.Encoder).EncodeTransaction")(cl) && len(cl.Call.Args) == 2 {
+				if a, isAlloc := cl.Call.Args[1].(*ssa.Alloc); isAlloc && typeShort(a.Type()) == "*common.SignedTransaction" {
+					ok = true
+				}
+			}
+			if !ok {
+				badret = instrPos(c.W, r)
+			}
+		}
+		c.Require(nret > 0 && badret == "", "shape", shortName(f)+"|every return is the stripped encoding", "every value returned by payloadMarshal is EncodeTransaction(&SignedTransaction{Transaction: ver.Transaction})", "a return at "+badret+" yields another encoding (authorization data can reach the hashed payload)")
 	}
 	if f := c.F("(*common.VersionedTransaction).PayloadHash"); f != nil {
 		c.Require(len(findValues(f, Call("crypto.Blake3Hash", Call("(*common.VersionedTransaction).PayloadMarshal", Param("ver"))))) == 1, "shape", shortName(f), "PayloadHash = Blake3(PayloadMarshal())", "hash source changed")
